@@ -20,7 +20,7 @@ ASSUMPTIONS = ['firmware layouts: crtp_commander_rpyt / crtp_commander_generic (
                'crtp_commander_high_level (0,3,4,5,6,7,8,11,12), crtp_localization_service, platformservice',
                'legacy (protocol version <= 8) velocity/zdistance/hover packets carry the yaw rate negated',
                'full-state rates are sent as value*1000 fixed point (unit as passed by the caller)']
-REQUIRED = ['mon.rpyt', 'mon.generic_setpoints', 'mon.full_state', 'mon.high_level', 'mon.localization', 'mon.platform',
+REQUIRED = ['mon.setpoints_built_while_the_version_answer_arrives', 'mon.rpyt', 'mon.generic_setpoints', 'mon.full_state', 'mon.high_level', 'mon.localization', 'mon.platform',
             'mon.lpp', 'mon.refused', 'mon.headers', 'mon.legacy_versions', 'mon.xmode', 'mon.full_state_orientation_judged',
             'mon.full_state_negated_orientation', 'mon.queued_packets_rechecked',
             'mon.unrelated_platform_packets_after_negotiation']
@@ -222,7 +222,41 @@ def one(ctx, cf, rnd, version, xmode):
                         return False
                     vals = struct.unpack('<ffff', d[1:])
                     return all(same32(w, v) for w, v in zip(vals, want))
-                fn(*args)
+                if version >= 0 and rnd.random() < 0.2:
+                    # a (re)negotiated version answer arrives on the incoming thread while the setpoint is being built: right
+                    # after every read of the version.  The packet must be a legal encoding for the version before or after.
+                    from cflib.crtp.crtpstack import CRTPPacket as _P
+                    other = rnd.choice([x for x in VERSIONS if x >= 0 and (x <= 8) != legacy])
+                    orig = cf.platform.get_protocol_version
+                    busy = []
+
+                    def racing_read():
+                        v = orig()
+                        if not busy:
+                            busy.append(1)
+                            q = _P()
+                            q.set_header(13, 1)
+                            q.data = bytes([0, other if v == version else version])
+                            cf.platform._platform_callback(q)
+                            busy.pop()
+                        return v
+                    ot, owant = {1: 8, 2: 9, 5: 10, 8: 1, 9: 2, 10: 5}[t], list(want)
+                    yi = 3 if cmd == 'velw' else 2
+                    owant[yi] = -owant[yi]
+
+                    def expect(d, enc=((t, want), (ot, tuple(owant)))):
+                        if len(d) != 17:
+                            return False
+                        vals = struct.unpack('<ffff', d[1:])
+                        return any(d[0] == t_ and all(same32(w, v) for w, v in zip(vals, w_)) for (t_, w_) in enc)
+                    ctx.count('mon.setpoints_built_while_the_version_answer_arrives')
+                    cf.platform.get_protocol_version = racing_read
+                    try:
+                        fn(*args)
+                    finally:
+                        del cf.platform.get_protocol_version
+                else:
+                    fn(*args)
             elif cmd == 'pos':
                 args = tuple(rfloat(rnd) for _ in range(4))
                 must_raise = not all(fits32(v) for v in args)
